@@ -158,7 +158,7 @@ class Report:
         rp = ob.get('replay')
         solver_out = f"obligation {ob['name']} (kind {ob['kind']}, line {ob.get('line')}, path {ob.get('path')}): {ob['backend']} answered sat\nmodel: {ob.get('model_excerpt')}"
         if rp:
-            res = call_replay(rp['fn'], rp['inputs'])
+            res = rp.get('result') or call_replay(rp['fn'], rp['inputs'])
             path = write_replay_file(pid, ob['name'], rp['fn'], rp['inputs'], solver_out, res)
             if res['reproduced']:
                 return {'line': f'VIOLATION property={pid} replay={path}', 'obligation': ob['name'], 'reproduced': True}
